@@ -536,7 +536,7 @@ OUTCOME = {"ok": "ok", "err:ValueError": "value", "err:KeyError": "key", "err:Re
 
 class C17(Prop):
     id = "C17"
-    lean_modules = ["VivModel.Props.C17"]
+    lean_modules = ["VivModel.Props.C17", "VivModel.Props.C17Src"]
     build_targets = ["VivModel.Model.Machine", "VivModel.Model.Proto"]
     driver = "C17"
     technique = ("Lean 4 proof (vectorised model of Machine.transition refines the pointwise one-simulant function: induction over "
